@@ -59,6 +59,17 @@ def make_special_case(rng, kind):
                 return dict(edges=edges, weights=weights, massive=massive, ext=ext, D=D, accepted=True, table=table, dod=dod, loops=Lf,
                             name="huge_j:polygon")
             continue
+        if kind == "inf_factor":
+            # J of the full graph overflows (two propagator powers ~1e-154): cached_factor = +inf, every sample has jacobian = inf.
+            # A format that "preserves f64 exactly" must carry that through (JSON cannot: skipped there)
+            edges, mp, _ = gen.relabel(rng, [(0, 1), (1, 2), (2, 0)])
+            D, massive, ext = 3, [True] * 3, list(mp)
+            weights = [1.6, 10.0 ** -rng.uniform(153.5, 154.5), 10.0 ** -rng.uniform(154, 155)]
+            dod, Lf, table = oracle.table_oracle(edges, weights, massive, ext, D)
+            if not oracle.divergent_subsets(table):
+                return dict(edges=edges, weights=weights, massive=massive, ext=ext, D=D, accepted=True, table=table, dod=dod, loops=Lf,
+                            name="inf_factor:triangle")
+            return None
         if kind == "eight":
             name = rng.choice(["ladder3", "hexagon_doubled_plus"])
             edges = list(gen.CATALOGUE["ladder3"]) if name == "ladder3" else list(gen.CATALOGUE["hexagon_doubled"]) + [(0, 3)]
@@ -68,8 +79,8 @@ def make_special_case(rng, kind):
                 c["name"] = "eight:" + name
                 return c
             continue
-        if kind == "vacuum":
-            name = rng.choice(["bubble", "sunrise", "tadpole_pair", "triangle_tadpole"])
+        if kind in ("vacuum", "single_edge"):
+            name = "tadpole" if kind == "single_edge" else rng.choice(["bubble", "sunrise", "tadpole_pair", "triangle_tadpole", "tadpole"])
             edges = list(gen.CATALOGUE[name]); massive = [True] * len(edges); ext = []
         else:
             name = rng.choice(["two_bubbles", "triangle_x_bubble", "bubble_x_tadpole"])
@@ -92,7 +103,7 @@ def make_special_case(rng, kind):
     return None
 
 
-def make_kinematics(rng, case, scale=1):
+def make_kinematics(rng, case, scale=1, decouple=False):
     """external momenta (exactly conserved, dyadic), masses, a spanning tree with its fundamental signature and the
     tree routing of the external momenta"""
     edges, D = case["edges"], case["D"]
@@ -113,6 +124,10 @@ def make_kinematics(rng, case, scale=1):
     ext_mom = {v: [t * sc for t in p] for v, p in ext_mom.items()}
     shifts = kin.route_externals(edges, tree, ext_mom, D)
     masses = [Fraction(rng.randint(1, 12), 4) * sc if m else Fraction(0) for m in case["massive"]]
+    if decouple:
+        # the is_massive flags of the graph steer the importance sampling only; the integrand's masses are whatever edge_data says:
+        # masses on edges that are not flagged, and flagged edges without a mass
+        masses = [(Fraction(rng.randint(1, 12), 4) * sc if rng.random() < 0.4 else Fraction(0)) if rng.random() < 0.5 else m0 for m0 in masses]
     return dict(S=S, tree=tree, ext_mom=ext_mom, masses=masses, shifts=shifts)
 
 
@@ -146,7 +161,7 @@ def make_routing(rng, case, variant="random", kinem=None):
     sh = [[flips[e] * x for x in sh[e]] for e in range(n)]
     nonfund = any(P[i][j] != (1 if i == j else 0) for i in range(L) for j in range(L)) or any(f < 0 for f in flips)
     return dict(sig=S3, ext_mom=ext_mom, masses=masses, shifts=sh, L=L, nonfundamental=nonfund,
-                has_offsets=any(any(c != 0 for c in o) for o in offsets), P=P, flips=flips, tree=tree,
+                has_offsets=any(any(c != 0 for c in o) for o in offsets), P=P, flips=flips, tree=tree, decoupled=bool(kinem.get("decoupled")),
                 max_sig=max(abs(v) for r in S3 for v in r))
 
 
@@ -185,10 +200,15 @@ def point(rng, dim, kind="uniform", n_edges=None):
 
 def sample_request(case, routing, table, xs, tol=None, debug=True, meta=True):
     D = case["D"]
-    ed = [[f2b(float(m)) if case["massive"][e] else None, [f2b(float(c)) for c in routing["shifts"][e]]]
+    ed = [[f2b(float(m)) if (case["massive"][e] and not routing.get("decoupled")) or m != 0 else None, [f2b(float(c)) for c in routing["shifts"][e]]]
           for e, m in enumerate(routing["masses"])]
     r = {"op": "sample", "D": D, "table": table, "sig": routing["sig"], "x": [f2b(x) for x in xs], "edge_data": ed,
          "debug": debug, "meta": meta}
+    if len(case["edges"]) <= 8 and "weights" in case:
+        # the implementation builds the sampler through the public API (Graph::build_sampler with this signature); the model is
+        # evaluated on the table and signature of the request. Glue in build_sampler is thereby part of every sample-level check
+        r["api_graph"] = {"edges": [[a, b, f2b(w), bool(m)] for (a, b), w, m in zip(case["edges"], case["weights"], case["massive"])],
+                          "ext": list(case["ext"])}
     if tol is not None:
         r["tol"] = f2b(tol)
     return r
@@ -200,7 +220,7 @@ def build_tables(cases):
 
 
 def generate(ctx, n_graphs, pts, max_e=6, max_loops=3, kinds=("uniform", "uniform", "corner", "edge1"), variant="random",
-             routings_per_graph=1, names=None, mass_mode=None, special=(), ext_modes=None, scales=(1,)):
+             routings_per_graph=1, names=None, mass_mode=None, special=(), ext_modes=None, scales=(1,), decouple=0.0):
     """returns list of dict(case, routing, table, xs, req, kind); `special` = kinds of make_special_case to append"""
     rng = ctx.rng
     cases = []
@@ -217,7 +237,9 @@ def generate(ctx, n_graphs, pts, max_e=6, max_loops=3, kinds=("uniform", "unifor
     for c, b in zip(cases, built):
         if b.get("status") != "ok":
             ctx.count("sample.graph_rejected_by_impl"); continue
-        kinem = make_kinematics(rng, c, scale=rng.choice(scales))
+        dec = rng.random() < decouple
+        kinem = make_kinematics(rng, c, scale=rng.choice(scales), decouple=dec)
+        kinem["decoupled"] = dec
         routings = [make_routing(rng, c, "fundamental" if (k == 0 and routings_per_graph > 1) else
                                  ("face" if gen.face_basis(c.get("name", ""), c["edges"]) is not None and rng.random() < 0.7 else variant), kinem)
                     for k in range(routings_per_graph)]
